@@ -64,7 +64,7 @@ def run(chk, repo, tier):
     f = repo.func(f"{G2P}.subgroup_check")
     mul = repo.resolve_binding(m, "multiply")
     inf = repo.resolve_binding(m, "is_inf")
-    ok_res = (mul and mul[0] == "func" and mul[1].qualname == f"{OC}.multiply" and inf and inf[0] == "func" and inf[1].qualname == f"{OC}.is_inf")
+    ok_res = repo.is_func(mul, f"{OC}.multiply") and repo.is_func(inf, f"{OC}.is_inf")
     chk.ob("C17.R1", f.qualname, "multiply / is_inf resolve to the optimized BLS12-381 curve module", bool(ok_res),
            f"multiply -> {mul[1].qualname if mul else None}, is_inf -> {inf[1].qualname if inf else None}", f.where)
     from ..interp import enumerate_paths
@@ -116,7 +116,7 @@ def run(chk, repo, tier):
             elif pth.value is not wantc:
                 badc.append(f"returns {show(pth.value)[:120]} on path {pd}")
         chk.ob("C17.R2", ff.qualname, f"multiply(P, {nm}) on the optimized BLS curve module, on every path",
-               not badc and bool(cpaths) and cmul[1].qualname == f"{OC}.multiply", "; ".join(badc[:2]) or f"{len(cpaths)} path(s)", ff.where)
+               not badc and bool(cpaths) and repo.is_func(cmul, f"{OC}.multiply"), "; ".join(badc[:2]) or f"{len(cpaths)} path(s)", ff.where)
     # ---- orders
     p, rr, t, h1, h2 = BLS["p"], BLS["r"], BLS["t"], BLS["h1"], BLS["h2"]
     chk.ob("C17.R3", "oracle", "#E(F_p) = p + 1 − t = h1·r, t = x + 1 (Hasse: t² ≤ 4p)", p + 1 - t == h1 * rr and t * t <= 4 * p, "", "vstatic/spec/params.py")
